@@ -5,8 +5,14 @@ def gen_sites():
     C.gen_sites("C04", ["core/internal/protocol/proxy.go"], only=r":(ReadTCP|WriteTCP|varintPut)")
 
 
+def gen_trans_varint():
+    # Lean definition of varintPut TRANSLATED from the current source (Hy/Gen/TransVarint.lean);
+    # Props/C04.lean proves it equal to Hy.Varint.enc for every value (varintPut_translation_*)
+    C.gen_translate("Varint", ["core/internal/protocol/proxy.go:varintPut"])
+
+
 CFG = {
-    "gen_hooks": [gen_sites],
+    "gen_hooks": [gen_sites, gen_trans_varint],
     "props_module": "Hy.Props.C04",
     "gen_modules": ["core"],
     "level": "proof",
